@@ -621,6 +621,14 @@ func StringProgs() []Prog {
 			strContract(-1, 2, 3, func(r rune) bool { return r == 'a' || r == '世' })),
 		one("StringOfN(RuneFrom(é),2,3,5)", "str rej", func() *rapid.Generator[string] { return rapid.StringOfN(rapid.RuneFrom([]rune{'é'}), 2, 3, 5) },
 			strContract(2, 3, 5, func(r rune) bool { return r == 'é' })),
+		// a lower rune limit together with a byte limit that multi-byte runes can exhaust before the lower limit is reached
+		one("StringOfN(RuneFrom(aé),4,6,6)", "str rej", func() *rapid.Generator[string] { return rapid.StringOfN(rapid.RuneFrom([]rune{'a', 'é'}), 4, 6, 6) },
+			strContract(4, 6, 6, func(r rune) bool { return r == 'a' || r == 'é' })),
+		one("StringOfN(RuneFrom(a世),3,-1,6)", "str rej", func() *rapid.Generator[string] { return rapid.StringOfN(rapid.RuneFrom([]rune{'a', '世'}), 3, -1, 6) },
+			strContract(3, -1, 6, func(r rune) bool { return r == 'a' || r == '世' })),
+		one("StringN(3,-1,4)", "str rej wide", func() *rapid.Generator[string] { return rapid.StringN(3, -1, 4) }, strContract(3, -1, 4, nil)),
+		one("StringOfN(RuneFrom(é𝄞),2,2,4)", "str rej", func() *rapid.Generator[string] { return rapid.StringOfN(rapid.RuneFrom([]rune{'é', '𝄞'}), 2, 2, 4) },
+			strContract(2, 2, 4, func(r rune) bool { return r == 'é' || r == '𝄞' })),
 		// rune limit and byte limit together, with multi-byte runes
 		one("StringN(-1,8,12)", "str rej wide", func() *rapid.Generator[string] { return rapid.StringN(-1, 8, 12) }, strContract(-1, 8, 12, nil)),
 		one("StringN(0,3,4)", "str rej wide", func() *rapid.Generator[string] { return rapid.StringN(0, 3, 4) }, strContract(0, 3, 4, nil)),
